@@ -771,12 +771,21 @@ func (e *Engine) doRecover(st *State, th *Thread) Value {
 	// recover() is effective only when called directly by a deferred function
 	// while the frame below it is unwinding
 	n := len(th.Frames)
+	if e.TraceExec {
+		fmt.Fprintf(e.Log, "    recover: frames=%d panic=%v", n, th.Panic != nil)
+		if n >= 2 {
+			fmt.Fprintf(e.Log, " topKind=%d belowUnwind=%v belowFn=%s", th.Frames[n-1].Kind, th.Frames[n-2].Unwind, th.Frames[n-2].Fn.Name())
+		}
+		fmt.Fprintln(e.Log)
+	}
 	if n >= 2 && th.Panic != nil && !th.Panic.Recovered {
 		top := th.Frames[n-1]
 		below := th.Frames[n-2]
 		if top.Kind == FDeferred && below.Unwind {
-			th.Panic.Recovered = true
-			return th.Panic.Val
+			np := *th.Panic // the panic record is shared by forked states: never modified in place
+			np.Recovered = true
+			th.Panic = &np
+			return np.Val
 		}
 	}
 	return Iface{}
